@@ -331,7 +331,7 @@ VARIANTS += [
     F("C19", "delete-uses-other-path", ADP, 'os.remove(os.path.join(self.path, str(instance_uuid) + ".json"))', 'os.remove(os.path.join(self.path, str(instance_uuid) + ".state"))', "RECORD/FileAdapter/path"),
     F("C19", "instance-state-fields-swapped", SRV, 'return InstanceState(session_state, instance_uuid, instance["time"], instance["timeout"], session_state["step"])', 'return InstanceState(session_state, instance_uuid, instance["timeout"], instance["time"], session_state["step"])', "WIRING/InstanceManager._get_instance_state/InstanceState"),
     F("C19", "set-state-filters", BPTK, "        self.session_state = state\n", "        state.pop(\"settings_log\", None)\n        self.session_state = state\n", "WHOLE/_set_state/filter"),
-    S("C19", "with-open", ADP, '        f = open(os.path.join(self.path, str(state.instance_id) + ".json"), "w")\n        f.write(jsonpickle.dumps(data))\n        f.close()', '        with open(os.path.join(self.path, str(state.instance_id) + ".json"), "w") as f:\n            f.write(jsonpickle.dumps(data))'),
+    S("C19", "with-open", ADP, '        f = open(target + ".tmp", "w")\n        f.write(jsonpickle.dumps(data))\n        f.close()', '        with open(target + ".tmp", "w") as f:\n            f.write(jsonpickle.dumps(data))'),
 ]
 
 # ---------------------------------------------------------------------------- C20
@@ -339,7 +339,7 @@ VARIANTS += [
     F("C20", "load-state-appends-none-again", ADP, "            if instance is not None:\n                instances.append(instance)", "            instances.append(instance)", "NULL/BptkServer"),
     F("C20", "swallow-all-exceptions", SDSIM, "            except KeyError:\n                log(\"[WARN] Unable to simulate equation", "            except Exception:\n                log(\"[WARN] Unable to simulate equation", None, error_ok=True),
     F("C20", "lazy-restore-unchecked", SRV, "        instance = self._external_state_adapter.load_instance(instance_uuid)\n        if instance == None:\n            return False\n", "        instance = self._external_state_adapter.load_instance(instance_uuid)\n", "NULL/_ensure_instance_exists"),
-    S("C20", "filter-as-comprehension", ADP, "        for instance_uuid in instance_paths:\n            instance = self._load_instance(instance_uuid.split(\".\")[0])\n            # a file that cannot be read (e.g. truncated by a crash) costs that one instance only\n            if instance is not None:\n                instances.append(instance)\n", "        loaded = [self._load_instance(p.split(\".\")[0]) for p in instance_paths]\n        instances = [i for i in loaded if i is not None]\n"),
+    S("C20", "filter-as-comprehension", ADP, "        for instance_uuid in instance_paths:\n            if not instance_uuid.endswith(\".json\"):\n                continue        # e.g. the half-written temporary file of an interrupted save\n            instance = self._load_instance(instance_uuid.split(\".\")[0])\n            # a file that cannot be read (e.g. truncated by a crash) costs that one instance only\n            if instance is not None:\n                instances.append(instance)\n", "        loaded = [self._load_instance(p.split(\".\")[0]) for p in instance_paths if p.endswith(\".json\")]\n        instances = [i for i in loaded if i is not None]\n"),
 ]
 
 # ---------------------------------------------------------------------------- C03
@@ -396,9 +396,10 @@ VARIANTS += [
     # C16: deep-copied module template is fine
     S("C16", "uuid4-instead-of-uuid1", SRV, "        instance_uuid = uuid.uuid1().hex", "        instance_uuid = uuid.uuid4().hex"),
     # C19: local for the path
-    S("C19", "record-built-in-two-steps", ADP, '        f = open(os.path.join(self.path, str(state.instance_id) + ".json"), "w")\n        f.write(jsonpickle.dumps(data))\n        f.close()', '        payload = jsonpickle.dumps(data)\n        f = open(os.path.join(self.path, str(state.instance_id) + ".json"), "w")\n        f.write(payload)\n        f.close()'),
+    S("C19", "record-built-in-two-steps", ADP, '        f = open(target + ".tmp", "w")\n        f.write(jsonpickle.dumps(data))\n        f.close()', '        payload = jsonpickle.dumps(data)\n        f = open(target + ".tmp", "w")\n        f.write(payload)\n        f.close()'),
     # C20: atomic write would be an improvement, not a violation
-    S("C20", "atomic-replace", ADP, '        f = open(os.path.join(self.path, str(state.instance_id) + ".json"), "w")\n        f.write(jsonpickle.dumps(data))\n        f.close()', '        target = os.path.join(self.path, str(state.instance_id) + ".json")\n        f = open(target + ".tmp", "w")\n        f.write(jsonpickle.dumps(data))\n        f.close()\n        os.replace(target + ".tmp", target)'),
+    F("C20", "in-place-write-again", ADP, '        f = open(target + ".tmp", "w")\n        f.write(jsonpickle.dumps(data))\n        f.close()\n        os.replace(target + ".tmp", target)', '        f = open(target, "w")\n        f.write(jsonpickle.dumps(data))\n        f.close()', "ATOMIC/FileAdapter._save_instance/in-place-write"),
+    S("C20", "temp-file-via-tempfile-module", ADP, '        f = open(target + ".tmp", "w")\n        f.write(jsonpickle.dumps(data))\n        f.close()\n        os.replace(target + ".tmp", target)', '        tmp = target + ".new"\n        with open(tmp, "w") as f:\n            f.write(jsonpickle.dumps(data))\n        os.replace(tmp, target)'),
     # C09: flat results computed from the same step dict
     S("C09", "stop-test-rearranged", BPTK, "        if step>stoptime:\n            return {\"msg\":\"Stoptime reached\"}", "        if stoptime<step:\n            return {\"msg\":\"Stoptime reached\"}"),
     # C08: explicit keys() iteration
@@ -507,11 +508,11 @@ VARIANTS += [
       "    for step in sorted(results.keys(), key=float):\n        # loop over all scenario managers in the step"),
     # truncation / externalise after step
     S("C20", "state-file-private-and-truncated", ADAPT,
-      '        f = open(os.path.join(self.path, str(state.instance_id) + ".json"), "w")\n        f.write(jsonpickle.dumps(data))\n        f.close()',
-      '        fd = os.open(os.path.join(self.path, str(state.instance_id) + ".json"), os.O_WRONLY | os.O_CREAT | os.O_TRUNC, 0o600)\n'
+      '        f = open(target + ".tmp", "w")\n        f.write(jsonpickle.dumps(data))\n        f.close()',
+      '        fd = os.open(target + ".tmp", os.O_WRONLY | os.O_CREAT | os.O_TRUNC, 0o600)\n'
       '        with os.fdopen(fd, "w") as f:\n            f.write(jsonpickle.dumps(data))'),
-    F("C20", "state-file-appended", ADAPT, '        f = open(os.path.join(self.path, str(state.instance_id) + ".json"), "w")',
-      '        f = open(os.path.join(self.path, str(state.instance_id) + ".json"), "a")', "ATOMIC/FileAdapter._save_instance/not-truncated"),
+    F("C20", "state-file-appended", ADAPT, '        f = open(target + ".tmp", "w")',
+      '        f = open(target + ".tmp", "a")', "ATOMIC/FileAdapter._save_instance/not-truncated"),
     S("C20", "save-adapter-local-alias", SRV, "            resp = make_response('{\"error\": \"no data was returned from run_step\"}', 500)\n\n        if self._external_state_adapter != None:\n            self._external_state_adapter.save_instance(",
       "            resp = make_response('{\"error\": \"no data was returned from run_step\"}', 500)\n\n        if self._external_state_adapter is not None:\n            self._external_state_adapter.save_instance(", count="all"),
     # scalar lockset: a local is not shared
